@@ -717,7 +717,9 @@ pub fn run_case(id: u64, c: &ConnCase, tmpdir: &str, tm: &Timing) -> String {
         let got = pump(&mut wire, &mut eof, Duration::from_millis(10));
         if got {
             last_activity = Instant::now();
-        } else if c.mode == Mode::Open && last_activity.elapsed() > Duration::from_millis(tm.quiet_ms) {
+        } else if c.mode == Mode::Open && last_activity.elapsed() > Duration::from_millis(if wire.is_empty() { std::cmp::max(tm.quiet_ms * 8, 2000) } else { tm.quiet_ms }) {
+            // (a client that has heard nothing at all yet waits longer: on a loaded machine the
+            // first answer can take more than the quiet period)
             break;
         } else if c.mode == Mode::HalfClose && last_activity.elapsed() > Duration::from_millis(std::cmp::max(tm.quiet_ms * 8, 4000)) {
             // nothing for a long while although we half-closed: the server is stuck
